@@ -13,7 +13,7 @@ tvars == <<file, hist, tid, l>>
 TInit == Init /\ tid \in 1..Len(Traces) /\ l = 1
 Ev == Traces[tid].events[l]
 Match(e) ==
-  CASE e.act = "write_dataset" -> WriteDatasetA(e.args.arrs, <<>>, e.args.fmt, e.args.g)
+  CASE e.act = "write_dataset" -> WriteDatasetA(e.args.arrs, <<>>, e.args.fmt, e.args.g, e.args.mode)
     [] e.act = "write_array"   -> WriteArrayA(e.args.arrs[1], <<>>, e.args.k, e.args.mode, e.args.fmt)
     [] e.act = "open_setitem"  -> OpenSetItemA(e.args.arrs[1], <<>>, e.args.k)
 \* the logged file content: dtype kinds only ("j" and "i" both read back as integers)
